@@ -1,0 +1,14 @@
+// Copyright ©2026 The Gonum Authors. All rights reserved.
+// Use of this source code is governed by a BSD-style
+// license that can be found in the LICENSE file.
+
+//go:build verif
+
+package graph
+
+// Verification hook (build tag verif; comments only). The methods below are
+// required by this package's documentation to be deterministic and free of
+// side effects; contracts of the graph containers treat them as pure
+// functions of the receiver (assumption A6 of /verif/DESIGN.md).
+
+//@ pure Node.ID Edge.From Edge.To Edge.ReversedEdge WeightedEdge.Weight Line.From Line.To Line.ID Line.ReversedLine WeightedLine.Weight
